@@ -13,7 +13,8 @@ verus! {
 pub struct EncodingCodes { _p: u8 }
 impl Clone for EncodingCodes { #[verifier::external_body] fn clone(&self) -> (r: Self) ensures r == *self { unimplemented!() } }
 pub enum Error { InvalidValue, InvalidLength, Other }
-pub struct ReaderS { pub consumed: usize }
+/// `remaining` (ghost): the octets of input not yet consumed
+pub struct ReaderS { pub consumed: usize, pub remaining: Ghost<nat> }
 impl ReaderS {
     pub fn bytes_consumed(&self) -> (r: usize) ensures r == self.consumed { self.consumed }
     /// Read::peek (unit READERS): the next octet, if any, without consuming it
@@ -197,6 +198,32 @@ impl DescribedAccess {
     ensures
         old(self).counter >= old(self).field_count ==> r == Ok::<Option<ElemV>, Error>(None) && final(self).de == old(self).de,
         final(self).field_count >= old(self).field_count,            // [C04.described.field-count-checked] [C15.described.field-count-checked]
+//@@ end
+}
+
+
+// ---- size hints (serde pre-allocates `Vec::with_capacity(min(hint, 1 MiB / size_of::<T>()))` from SeqAccess::size_hint / MapAccess::size_hint): the access structs give none today
+// (the trait default, None); if one is added it must not promise more elements than there are octets of input left -- every element costs at least one octet except inside
+// an array of zero-width elements, whose count deserialize_seq has already bounded by the input (READERS [C04.array.count-bounded-by-input])
+impl ArrayAccess {
+//@@ fn file=serde_amqp/src/de.rs impl=`~impl<'de,R:Read<'de>>de::SeqAccess<'de>forArrayAccess<'_,R>` name=size_hint optional id=ArrayAccess::size_hint
+//@@ ret Option<usize>
+//@@ spec
+    ensures r is Some ==> r->Some_0 <= self.de.reader.remaining@,       // [C04.alloc.size-hint-bounded-by-input] a count read from the wire is not handed to serde as a pre-allocation hint unless the input still holds that many octets
+//@@ end
+}
+impl ListAccess {
+//@@ fn file=serde_amqp/src/de.rs impl=`~impl<'de,R:Read<'de>>de::SeqAccess<'de>forListAccess<'_,R>` name=size_hint optional id=ListAccess::size_hint
+//@@ ret Option<usize>
+//@@ spec
+    ensures r is Some ==> r->Some_0 <= self.de.reader.remaining@,       // [C04.alloc.size-hint-bounded-by-input]
+//@@ end
+}
+impl MapAccess {
+//@@ fn file=serde_amqp/src/de.rs impl=`~impl<'de,R:Read<'de>>de::MapAccess<'de>forMapAccess<'_,R>` name=size_hint optional id=MapAccess::size_hint
+//@@ ret Option<usize>
+//@@ spec
+    ensures r is Some ==> r->Some_0 <= self.de.reader.remaining@,       // [C04.alloc.size-hint-bounded-by-input]
 //@@ end
 }
 
